@@ -217,8 +217,54 @@ def _reply(repo: Repo, chk: Check) -> None:
         del rec
         chk.ob("O2", Site.of(fr, nested[0].node if nested else None, None if nested else "GetKey.unpack_response: envelope slice"), ok3, why)
         # the HRESULT guard must dominate the decode: a raising path exists for hresult != 0
-    raising = [o for _, o in layout.Interp(repo, fr).run(layout.self_state(repo, fr)) if o.kind == "raise"]
+    outcomes = list(layout.Interp(repo, fr).run(layout.self_state(repo, fr)))
+    raising = [o for _, o in outcomes if o.kind == "raise"]
     chk.ob("O2", Site.of(fr, construct="GetKey.unpack_response: non-zero HRESULT raises"), bool(raising), "a failing HRESULT is reported" if raising else "no raising path for a non-zero HRESULT")
+    # no raising path is taken by a well-formed successful reply: pcbOut = n, total length 28 + n + (-n % 4), HRESULT 0.
+    # The conditions of each raising path are evaluated for every n in 0..255 (all residues of any small modulus).
+    from sa.sym import eval_lin
+
+    for st, o in outcomes:
+        if o.kind != "raise":
+            continue
+        hres_r = [r for r in st.reads if r.kind == "int" and r.lo == end - 4 and r.hi == end]
+        ln_r = [r for r in st.reads if r.kind == "int" and r.lo == 0 and r.hi == 4]
+        facts = implied(st.conds)
+        witness: t.Optional[int] = None
+        undecided = False
+        for n in range(256):
+            env: t.Dict[t.Any, int] = {("end", src): 28 + n + (-n % 4)}
+            for r in hres_r:
+                env[("read", r.rid)] = 0
+            for r in ln_r:
+                env[("read", r.rid)] = n
+            allhold = True
+            for c, pol in facts:
+                info = getattr(c, "info", {})
+                val: t.Optional[bool] = None
+                if "cmp" in info:
+                    op, a, b = info["cmp"]
+                    x, y = eval_lin(a, env), eval_lin(b, env)
+                    if x is not None and y is not None:
+                        val = {"lt": x < y, "le": x <= y, "gt": x > y, "ge": x >= y, "eq": x == y, "ne": x != y}[op]
+                elif "nonzero" in info and isinstance(info["nonzero"], Lin):
+                    x = eval_lin(info["nonzero"], env)
+                    val = None if x is None else x != 0
+                if val is None:
+                    undecided = True
+                    allhold = False
+                    break
+                if val != pol:
+                    allhold = False
+                    break
+            if allhold:
+                witness = n
+                break
+        site_r = Site.of(fr, o.node if getattr(o, "node", None) is not None else None, None if getattr(o, "node", None) is not None else "GetKey.unpack_response: raise")
+        if witness is not None:
+            chk.ob("O2", site_r, False, f"this error path is taken by a well-formed successful reply with a {witness} byte envelope (total {28 + witness + (-witness % 4)} bytes, 4-byte aligned before the HRESULT): conditions {[('' if p_ else 'not ') + c.desc for c, p_ in facts]}")
+        elif not undecided:
+            chk.ob("O2", site_r, True, "not reachable for a well-formed successful reply of any envelope length")
 
 
 def implied(conds: t.List[t.Tuple[t.Any, bool]]) -> t.List[t.Tuple[t.Any, bool]]:
